@@ -82,7 +82,12 @@ def one_run(params):
                 if not hostile:
                     return default
                 state["triggered"] = True
-                cls = params["cls"] if (kind == "handshake" and c[step] == params["occurrence"] and step == params["step"]) else rng.choice(params["classes"])
+                if kind == "handshake" and c[step] == params["occurrence"] and step == params["step"]:
+                    cls = params["cls"]
+                elif kind == "tunnel" and rng.random() < 0.7:
+                    cls = params["focus"]        # runs of the same class (e.g. a coherent flood of fragments)
+                else:
+                    cls = rng.choice(params["classes"])
                 if q is None:      # raw login step
                     d = hostile_cli.gen(rng, hs.queries[-1] if hs.queries else _dummy_q(), "raw", step, ctx)
                 else:
@@ -189,6 +194,9 @@ def one_run(params):
         if h == "stalled":
             out["stalled"] = True
             return out
+        if h.startswith("shimfail"):
+            out["inconclusive"] = "shim-failure"
+            return out
         if h.startswith("sanitizer:") or h.startswith("signal:"):
             rep = k.sanitizer_report(c)
             key = h.split(":", 1)[1] if h.startswith("sanitizer:") else h
@@ -255,7 +263,8 @@ def gen_params(rng, i, seed):
         if p["step"] == "Y" and rng.random() < 0.5:
             p["qtype"] = None               # the query-type autodetection probes
     else:
-        p["p_hostile"] = rng.choice([0.1, 0.4, 0.9])
+        p["p_hostile"] = rng.choice([0.1, 0.4, 0.9, 1.0])
+        p["focus"] = hostile_cli.CLASSES[(i // 5) % len(hostile_cli.CLASSES)]
     return p
 
 
